@@ -65,9 +65,7 @@ func GenHierarchy(r *kit.RNG, o GenOpt) []ZoneSpec {
 		root.Alg = kit.Pick(r, o.Algs)
 		root.KeyIdx = 0
 		root.CSK = r.Chance(0.2)
-		if r.Chance(0.2) {
-			root.NSEC3 = true
-		}
+		// (the root is NSEC-signed, as the real one is)
 	}
 	zones = append(zones, root)
 	ntld := r.Range(1, 3)
